@@ -17,7 +17,7 @@ DOCS = {
     'two-blocks': [('block', 'b1', [('item', '_a', C('x'))]), ('block', 'b2', [('item', '_a', C('y')), ('item', '_b', UNK)])],
     'loop2x2': [('block', 'b1', [('loop', ['_a', '_b'], [[C('1'), C('2')], [C('3'), NA]]), ('item', '_s', C('z'))])],
     'loop-then-loop': [('block', 'b1', [('item', '_s0', C('q')), ('loop', ['_a'], [[C('1')], [C('2')], [C('3')]]),
-                                        ('loop', ['_c', '_d'], [[C('5'), C('6')]]), ('item', '_s', C('z'))])],
+                                        ('loop', ['_cd', '_c'], [[C('5'), C('6')]]), ('item', '_s', C('z'))])],
     'frames': [('block', 'b1', [('item', '_x', C('0')), ('frame', 'f1', [('item', '_a', C('1'))]),
                                 ('frame', 'f2', [('loop', ['_p'], [[C('7')], [C('8')]]), ('item', '_a', C('2'))]), ('item', '_y', C('9'))]),
                ('block', 'b2', [('item', '_z', C('3'))])],
